@@ -210,8 +210,14 @@ CHECKS["C14"] = dict(
          "(sendAll_chunking, sendAll_prefix); nothing is sent in reply to an Error Report (no_reply_to_error); the in-place byte-order conversions are inverse to each "
          "other for every buffer, so the echoed copy (header only or whole PDU) is byte-exact as received (conv_roundtrip, echo_header_exact), stay inside a checked PDU "
          "(conv_in_bounds), and every field the protocol model reads big-endian is the field the C code reads from the converted struct (Conv.toHost_reads). "
-         "Which code answers which violation and that the encapsulated bytes are a prefix of the offending PDU is part of the protocol model and checked on the "
-         "implementation by correspondence + the sent-PDU oracle (each Error Report matched against the bytes consumed); uninitialised bytes are found by a "
+         "ERROR REPORTS (RtrProps/C14b.lean, relation Sent between environments built from the real model primitives): rtr_sync / rtr_receive_pdu / rtr_wait_for_sync "
+         "send at most one Error Report, only when they fail; it is a well-formed PDU of the socket's version with consistent length fields; its encapsulated bytes are "
+         "the first 8 bytes or the whole of the offending PDU exactly as received at a PDU boundary of the stream (or empty for the one site that reports a Cache Response "
+         "of a foreign session); the code is the one of the violation class (site->code table as theorems: receive_violation_reported, pfx_codes, key_codes, "
+         "eod_session_mismatch_reported, ...; codes are the RFC 8210 constants); nothing is ever sent in reply to an Error Report, whatever is wrong with it "
+         "(no_report_for_error_pdu_*). Stated limit (waitForSync_silent): while waiting for a Serial Notify, any other well-formed PDU is consumed and ignored without a "
+         "report - the client does not treat it as a violation. On the implementation the same is checked by correspondence + the sent-PDU oracle (each Error Report "
+         "matched against the bytes consumed); uninitialised bytes are found by a "
          "MemorySanitizer build of the same harness whose transport formats every byte sent. Second tie: tools/pduconvcheck.py runs the real static conversion "
          "functions of packets.c against RtrModel.PduConv; a CBMC obligation shows for every size-checked PDU that the conversions stay inside it. " + RTR_TIE,
     note=RTR_NOTE, technique="Lean 4 proofs over the PDU builders, tr_send_all and the byte-order conversions + two differential correspondences (protocol trace, conversion functions) + MSan",
